@@ -243,8 +243,9 @@ LAZY_GROUPS = [["/d.dods?s[1:1:8]", "/d.ascii?r.g&r.j!=3"], ["/d.dods?r[1:1:8]",
 # nested lazy sequences over list records and over numpy records: a selection on the inner sequence (its filter map runs
 # on the first source record) beside a plain read of the same sequence
 NEST_SCHED_SPEC = {"name": "d", "attrs": {"title": "nested-sched"},
-                   "vars": [v for v in F.NEST_SPEC["vars"] if v[1] in ("nl", "nr")]}
-NEST_GROUPS = [["/d.dods?nl&nl.ml.u>4", "/d.dods?nl"], ["/d.ascii?nr.mr.o&nr.mr.c<7", "/d.ascii?nr[1:4]&nr.mr.c>4"]]
+                   "vars": [["nseq", "nl", {}, [["j", "i4", "x"]], 3, "list", ["ml", [["u", "i4"], ["q", "i2"]], 1]],
+                            ["nseq", "nr", {}, [["h", "i4", None]], 2, "nprec", ["mr", [["c", "i4"], ["o", "f8"]], 0]]]}
+NEST_GROUPS = [["/d.dods?nl&nl.ml.u>4", "/d.dods?nl"], ["/d.ascii?nr.mr.o&nr.mr.c<7", "/d.ascii?nr[0:1]&nr.mr.c>4"]]
 
 
 class Rec(object):
@@ -329,6 +330,8 @@ def explore(ctx, tier, rng, specs, search=False):
     for spec, groups, label in ((F.FIXED_SPEC, FIXED_GROUPS, "fixed"), (TINY_SPEC, TINY_GROUPS, "tiny"),
                                 (F.LAZY_SPEC, LAZY_GROUPS, "lazy"), (NEST_SCHED_SPEC, NEST_GROUPS, "nested")):
         for gi, urls in enumerate(groups):
+            if label == "nested" and quick and gi > 0:
+                continue        # (the numpy-record pair: failing-input search and thorough tier)
             if label in ("lazy", "nested"):
                 gi += 2         # sampled like the later fixed groups
             pts, lpts = [], []
